@@ -549,7 +549,7 @@ pub fn run(cx: &mut Ctx) {
         b.specs.push(c18::gen_spec(&mut r));
         if let Ok(bytes) = b.serialize() {
             let d = get32(&bytes, 4, false).unwrap_or(0);
-            for cut in 0..d.min(200) {
+            for cut in (0..d.min(200)).step_by(if cfg!(miri) { 23 } else { 1 }) {
                 let mut m = bytes.clone();
                 set32(&mut m, 4, cut, false);
                 probe(c, &m, "asset binary whose data ends mid-record");
@@ -560,8 +560,8 @@ pub fn run(cx: &mut Ctx) {
     let repo = cx.a.repo.clone();
     let gs = golden(&repo);
     for (gi, s) in gs.iter().enumerate() {
-        if miri && gi % 5 != 0 {
-            continue;
+        if miri && (s.bytes.len() > 600 || gi % 3 != 0) {
+            continue; // Miri: the small sample files only
         }
         let ms = mutants(s);
         for chunk in ms.chunks(64) {
@@ -569,7 +569,7 @@ pub fn run(cx: &mut Ctx) {
                 c.sit("golden_seed_mutants");
                 probe(c, &s.bytes, "golden seed");
                 for (i, (what, m)) in chunk.iter().enumerate() {
-                    if miri && i % 16 != 0 {
+                    if miri && i % 32 != 0 {
                         continue;
                     }
                     probe(c, m, what);
@@ -578,7 +578,7 @@ pub fn run(cx: &mut Ctx) {
         }
     }
     // ---- generated seeds, their mutants, splices and bit flips
-    let n = cx.a.n(4_000, 200_000);
+    let n = cx.a.n(4_000, 100_000);
     for _ in 0..n {
         cx.case("generated_seed_mutants", |c| {
             c.sit("generated_seed_mutants");
